@@ -38,6 +38,9 @@ pub struct Case {
     /// further bits of the presence-flags byte handed to authenticate (e.g. 0x04 = UV)
     #[serde(default)]
     pub flags: u8,
+    /// run on the shipped single-slot store Arc<Mutex<Option<Passkey>>>
+    #[serde(default)]
+    pub option_store: bool,
 }
 
 // ---- raw message oracle
@@ -175,7 +178,7 @@ pub fn eval(c: &Case) -> (Vec<Finding>, String) {
     let mut fs = vec![];
     let (ch, app) = (pattern(c.challenge), pattern(c.application));
     let h = handle(c.handle_len, 0x30);
-    let store_name = if c.memory_store { "MemoryStore" } else { "RefStore" };
+    let store_name = if c.option_store { "Option" } else if c.memory_store { "MemoryStore" } else { "RefStore" };
     let mut bad = |kind: &str, d: String| fs.push(Finding::new(format!("kind={kind}"), format!("{d}; store={store_name}"), case.clone()));
     macro_rules! body {
         ($store:expr, $recs:expr) => {{
@@ -215,13 +218,22 @@ pub fn eval(c: &Case) -> (Vec<Finding>, String) {
                                             }
                                         }
                                     }
-                                    // unknown key handle fails
-                                    let mut unknown = h.clone();
-                                    unknown.push(0x99);
-                                    match authn_p(&auth, ch2, app, &unknown, c.counter, fl, c.p1) {
-                                        Err(p) => bad("panic-in-authenticate", p),
-                                        Ok(Ok(_)) => bad("unknown-key-handle-accepted", "authentication with an unknown key handle succeeded".into()),
-                                        Ok(Err(())) => {}
+                                    // unknown key handles fail: the registered one with one more byte, with its
+                                    // last byte removed, with its last byte changed, and the empty handle
+                                    let mut unknowns: Vec<Vec<u8>> = vec![[h.clone(), vec![0x99]].concat()];
+                                    if !h.is_empty() {
+                                        unknowns.push(h[..h.len() - 1].to_vec());
+                                        let mut flipped = h.clone();
+                                        *flipped.last_mut().unwrap() ^= 0x01;
+                                        unknowns.push(flipped);
+                                        unknowns.push(vec![]);
+                                    }
+                                    for unknown in unknowns {
+                                        match authn_p(&auth, ch2, app, &unknown, c.counter, fl, c.p1) {
+                                            Err(p) => bad("panic-in-authenticate", p),
+                                            Ok(Ok(_)) => bad("unknown-key-handle-accepted", format!("authentication with an unknown key handle ({} bytes, registered {} bytes) succeeded", unknown.len(), h.len())),
+                                            Ok(Err(())) => {}
+                                        }
                                     }
                                 }
                             }
@@ -231,7 +243,10 @@ pub fn eval(c: &Case) -> (Vec<Finding>, String) {
             }
         }};
     }
-    if c.memory_store {
+    if c.option_store {
+        let shared: Arc<tokio::sync::Mutex<Option<passkey_types::Passkey>>> = Arc::new(tokio::sync::Mutex::new(None));
+        body!(shared.clone(), shared.recs());
+    } else if c.memory_store {
         let shared = Arc::new(tokio::sync::Mutex::new(MemoryStore::new()));
         body!(shared.clone(), shared.recs());
     } else {
@@ -477,11 +492,11 @@ pub fn cases(tier: Tier) -> Vec<Case> {
     let counters = [0u32, 1, 0x8000_0000, 0xFFFF_FFFF];
     for hl in 0..=255usize {
         let k = hl % 4;
-        v.push(Case { challenge: k as u8, application: ((k + 1) % 4) as u8, handle_len: hl, counter: counters[k], presence: hl % 2 == 0, memory_store: hl % 3 == 0, p1: [0u8, 7, 8][hl % 3], flags: [0u8, 4][(hl / 3) % 2] });
+        v.push(Case { challenge: k as u8, application: ((k + 1) % 4) as u8, handle_len: hl, counter: counters[k], presence: hl % 2 == 0, memory_store: hl % 3 == 0, p1: [0u8, 7, 8][hl % 3], flags: [0u8, 4][(hl / 3) % 2], option_store: hl % 5 == 1 });
         if tier == Tier::Thorough {
             for memory_store in [false, true] {
                 for presence in [false, true] {
-                    v.push(Case { challenge: ((k + 2) % 4) as u8, application: ((k + 2) % 4) as u8, handle_len: hl, counter: counters[(k + 1) % 4], presence, memory_store, p1: [0u8, 7, 8][(hl / 2) % 3], flags: 0 });
+                    v.push(Case { challenge: ((k + 2) % 4) as u8, application: ((k + 2) % 4) as u8, handle_len: hl, counter: counters[(k + 1) % 4], presence, memory_store, p1: [0u8, 7, 8][(hl / 2) % 3], flags: 0, option_store: false });
                 }
             }
         }
@@ -493,7 +508,10 @@ pub fn cases(tier: Tier) -> Vec<Case> {
                     for memory_store in [false, true] {
                         for p1 in [0u8, 7, 8] {
                             for flags in [0u8, 4] {
-                                v.push(Case { challenge, application, handle_len: 32, counter, presence, memory_store, p1, flags });
+                                v.push(Case { challenge, application, handle_len: 32, counter, presence, memory_store, p1, flags, option_store: false });
+                                if !memory_store {
+                                    v.push(Case { challenge, application, handle_len: 32, counter, presence, memory_store, p1, flags, option_store: true });
+                                }
                             }
                         }
                     }
@@ -530,7 +548,7 @@ pub fn run(ctx: &Ctx) -> Result<Run, String> {
     let n = cs.len() as u64;
     let mut run = Run::from_stats(
         "model_checking",
-        "single register+authenticate+unknown-handle runs for every key-handle length 0..255 and the product challenge/application patterns(4x4, incl. equal) x counter {0,1,2^31,2^32-1} x presence x control byte {0x03, 0x07, 0x08} x further flag bits {none, UV} x {RefStore, Arc<Mutex<MemoryStore>>}; response structs with certificate/handle/signature lengths the authenticator itself never produces encoded directly; every well-formed extended-length request frame (register, authenticate with P1 in {3,7,8} and every handle length, version; with and without trailing Le) parsed back; BFS over sequences of register(h in 2, app in 2) / authenticate(h in 2 + unknown, app in 2) on both stores. Signatures are verified with p256 over the byte strings of the U2F raw-message specification; raw encodings are parsed by the harness",
+        "single register+authenticate+unknown-handle runs for every key-handle length 0..255 and the product challenge/application patterns(4x4, incl. equal) x counter {0,1,2^31,2^32-1} x presence x control byte {0x03, 0x07, 0x08} x further flag bits {none, UV} x {RefStore, Arc<Mutex<MemoryStore>>, Arc<Mutex<Option<Passkey>>>} (unknown handles: the registered one plus a byte, minus a byte, with a changed byte, and the empty handle); response structs with certificate/handle/signature lengths the authenticator itself never produces encoded directly; every well-formed extended-length request frame (register, authenticate with P1 in {3,7,8} and every handle length, version; with and without trailing Le) parsed back; BFS over sequences of register(h in 2, app in 2) / authenticate(h in 2 + unknown, app in 2) on both stores. Signatures are verified with p256 over the byte strings of the U2F raw-message specification; raw encodings are parsed by the harness",
         true,
         stats,
     );
